@@ -1,2 +1,93 @@
-/- driver stub for C04: replaced when the model exists -/
-def main : IO Unit := pure ()
+/-
+  driver for C04: the lockstep model of the transaction state machines
+  (every op of BacVerif.Drv.TsmDrv, shared with C11/C12) plus the IOCB layer
+  model (BacVerif.Model.Iocb):
+
+    {"op":"io_reset"}
+    {"op":"io","e":"submit","dest":a,"prio":p,"unconf":b,"fails":b}
+    {"op":"io","e":"abort","id":i,"tok":t}
+    {"op":"io","e":"confirm","addr":a,"kind":"ack|err|other","tok":t}
+    {"op":"io","e":"deferred"}
+  reply
+    {"r":"ok","out":[…],"io":[[st,ctrl,inq,resp,err],…],"q":[[addr,qid,busy,active,[[p,id],…]],…],
+     "def":[qid,…],"br":"…"}
+-/
+import BacVerif.Drv.TsmDrv
+import BacVerif.Model.Iocb
+namespace BacVerif.Drv.C04
+open Lean BacVerif BacVerif.Drv BacVerif.Iocb
+
+def jOutIo : Iocb.Out → Json
+  | .sent id => Json.mkObj [("o", "sent"), ("id", Json.num id)]
+  | .callback id st resp err =>
+    Json.mkObj [("o", "cb"), ("id", Json.num id), ("st", Json.num st.code),
+                ("resp", jNatOpt resp), ("err", jNatOpt err)]
+  | .raised .unrecognized => Json.mkObj [("o", "raised"), ("k", "unrecognized")]
+
+def jIocb (io : Iocb) : Json :=
+  Json.arr #[Json.num io.st.code, jNatOpt io.ctrl, jNatOpt io.inq, jNatOpt io.resp, jNatOpt io.err]
+
+def jQ (aq : Addr × Q) : Json :=
+  Json.arr #[Json.num aq.1, Json.num aq.2.qid, jB aq.2.busy, jNatOpt aq.2.active,
+    Json.arr (aq.2.queue.map fun (p, i) => Json.arr #[Json.num p, Json.num i]).toArray]
+
+def evOfJson (j : Json) : R Ev := do
+  match ← fldStr j "e" with
+  | "submit" => pure (.submit (← fldNat j "dest") (← fldNat j "prio") (fldB j "unconf") (fldB j "fails"))
+  | "abort" => pure (.abort (← fldNat j "id") (← fldNat j "tok"))
+  | "confirm" =>
+    let k ← match ← fldStr j "kind" with
+      | "ack" => pure Conf.ack | "err" => pure Conf.err | "other" => pure Conf.other
+      | k => throw s!"unknown confirmation kind {k}"
+    pure (.confirm (← fldNat j "addr") k (← fldNat j "tok"))
+  | "deferred" => pure .runDeferred
+  | e => throw s!"unknown io event {e}"
+
+/-- coverage signature: event kind, what the addressed queue looked like, output kinds -/
+def brIo (s : Iocb.St) (e : Ev) (outs : List Iocb.Out) : String :=
+  let qs (a : Addr) : String :=
+    match lookupQ s.queues a with
+    | none => "-"
+    | some q => s!"{if q.busy then "B" else "I"}{min q.queue.length 2}"
+  let tag : String :=
+    match e with
+    | .submit d _ u f => s!"submit{if u then "u" else ""}{if f then "f" else ""}:{qs d}"
+    | .abort id _ =>
+      match s.iocbs[id]? with
+      | some io => s!"abort:{io.st.code}:{qs io.dest}"
+      | none => "abort:?"
+    | .confirm a k _ => s!"confirm{match k with | .ack => "A" | .err => "E" | .other => "O"}:{qs a}"
+    | .runDeferred =>
+      match s.deferred with
+      | [] => "deferred:none"
+      | q :: _ =>
+        match findQ s.queues q with
+        | none => "deferred:dead"
+        | some x => s!"deferred:{if x.busy then "B" else "I"}{min x.queue.length 2}"
+  let os := String.join (outs.map fun o => match o with
+    | .sent _ => "s" | .callback _ st _ _ => s!"c{st.code}" | .raised _ => "!")
+  s!"{tag}:{os}"
+
+structure State where
+  tsm : DrvState := {}
+  io : Iocb.St := {}
+
+def handle (st : State) (j : Json) : R (State × Json) := do
+  match ← fldStr j "op" with
+  | "io_reset" => pure ({ st with io := {} }, jOk [])
+  | "io" =>
+    let e ← evOfJson j
+    let (s', outs) := Iocb.step st.io e
+    let reply := jOk [("out", Json.arr (outs.map jOutIo).toArray),
+                      ("io", Json.arr (s'.iocbs.map jIocb).toArray),
+                      ("q", Json.arr (s'.queues.map jQ).toArray),
+                      ("def", Json.arr (s'.deferred.map fun (n : Nat) => Json.num n).toArray),
+                      ("br", Json.str (brIo st.io e outs))]
+    pure ({ st with io := s' }, reply)
+  | _ =>
+    let (t', r) ← handleTsm st.tsm j
+    pure ({ st with tsm := t' }, r)
+
+end BacVerif.Drv.C04
+
+def main : IO Unit := BacVerif.Drv.loopS ({} : BacVerif.Drv.C04.State) BacVerif.Drv.C04.handle
